@@ -641,7 +641,7 @@ theorem count_run_unit_c {a d : Int} {n : Nat} (h : CharRunHyp a d n) (hu : d = 
   simp only [skipSpace_tokStart T ⟨hne, ‹_›, h0, ‹_›, ‹_›, h37, h47, ‹_›⟩, skipCommentLines_none _ T h37, bind,
     Except.bind]
   rw [countLoop]
-  simp only [h0, h47, ne_eq, not_false_eq_true, and_self, ↓reduceIte, hskip T.length, bind, Except.bind, skipSpace,
+  simp only [h0, h47, ne_eq, not_false_eq_true, and_self, ↓reduceIte, skipNextPrintedArg_checkFuel (hskip T.length), bind, Except.bind, skipSpace,
     hd_nil, not_true_eq_false, pure, Except.pure, List.length_nil, ge_iff_le, Nat.le_zero_eq,
     show ¬ (T.length = 0) from by omega]
   obtain ⟨m, hm⟩ : ∃ m, T.length = m + 1 := ⟨T.length - 1, by omega⟩
@@ -676,12 +676,12 @@ theorem count_run_step_c {a d : Int} {n : Nat} (h : CharRunHyp a d n) (hu : ¬ (
   unfold countPrintedArgVals
   simp only [skipSpace_tokStart T hstart, skipCommentLines_none _ T h37, bind, Except.bind]
   rw [countLoop]
-  simp only [h0, h47, ne_eq, not_false_eq_true, and_self, ↓reduceIte, hr, bind, Except.bind, hsrc, hsk,
+  simp only [h0, h47, ne_eq, not_false_eq_true, and_self, ↓reduceIte, skipNextPrintedArg_checkFuel hr, bind, Except.bind, hsrc, hsk,
     skipSpace_sep [32] T2 (Or.inl rfl) hstart2, h0', skipCommentLines_none _ T2 h37', pure, Except.pure, ge_iff_le,
     show ¬ (T.length ≤ T2.length) from by omega]
   obtain ⟨m, hm⟩ : ∃ m, T.length = m + 2 := ⟨T.length - 2, by omega⟩
   rw [hm, countLoop]
-  simp only [h0', h47', ne_eq, not_false_eq_true, and_self, ↓reduceIte, hskip2 T2.length, bind, Except.bind, skipSpace,
+  simp only [h0', h47', ne_eq, not_false_eq_true, and_self, ↓reduceIte, skipNextPrintedArg_checkFuel (hskip2 T2.length), bind, Except.bind, skipSpace,
     hd_nil, not_true_eq_false, pure, Except.pure, List.length_nil, ge_iff_le, Nat.le_zero_eq,
     show ¬ (T2.length = 0) from by omega]
   rw [countLoop_end _ (by omega)]
